@@ -2,6 +2,7 @@ import Tuc.Model.CutStr
 import Tuc.Spec.Record
 import Tuc.Lemmas.Run
 import Tuc.Lemmas.Bounds
+import Tuc.Lemmas.Split
 /-!
 # C01 — field mode emits exactly the requested fields, in request order
 
@@ -79,5 +80,59 @@ theorem joiner_rule (opt : Opt) (b : UserBounds) :
       if opt.join = true ∧ b.isLast = false then Run.ok (opt.replaceDelimiter.getD opt.delimiter)
       else Run.empty := by
   cases opt.join <;> cases b.isLast <;> simp
+
+/-- **The plain splitter, one bound.**  For a non-empty line split at a non-empty literal
+    delimiter (no `-g`, `-p`, `-r`, `--json`), a bound that resolves to the fields `s … e-1`
+    makes the engine write exactly those fields of the specification with one delimiter between
+    neighbours, then the joiner (under `-j`, unless the bound is the last) — it never panics.
+    `hz` (the parser never produces the index 0) is needed: for `0:0` `try_into_range` answers
+    `(0, 0)` and the engine prints field 1 (see the `example` below). -/
+theorem plain_bound_output (line d : Bytes) (opt : Opt) (b : UserBounds) (s e : Nat)
+    (hline : line ≠ []) (hd : d ≠ [])
+    (hjson : opt.json = false) (hrep : opt.replaceDelimiter = none)
+    (hty : opt.boundsType = .fields) (hz : b.l ≠ .some 0)
+    (hb : b.tryIntoRange (fillWithFieldsLocations [] line d).length = some (s, e)) :
+    outputBof line (fillWithFieldsLocations [] line d) (fillWithFieldsLocations [] line d).length
+        opt false (.bound b) =
+      (Run.ok (joinWith d ((splitFields d line).extract s e))).seq
+        (if opt.join = true ∧ b.isLast = false then Run.ok opt.delimiter else Run.empty) := by
+  have hw := fields_wellformed d line hd hline
+  obtain ⟨hse, hen⟩ := tryIntoRange_bounds b _ s e hz hb
+  have hs : s < (fillWithFieldsLocations [] line d).length := by omega
+  have he : e - 1 < (fillWithFieldsLocations [] line d).length := by omega
+  have h1 := hw.start_le_stop s (e - 1) (by omega) he
+  have h2 := (hw.getElem_bounds (e - 1) he).2.2
+  have h3 := slice_eq_interleave d line hd hline s (e - 1) (by omega) he
+  have e1 : e - 1 + 1 = e := by omega
+  rw [e1] at h3
+  unfold outputBof
+  simp only [hb, List.getElem?_eq_getElem hs, List.getElem?_eq_getElem he]
+  rw [if_pos ⟨h1, h2⟩, h3]
+  simp only [maybeReplaceDelimiter, hty, hrep, writeMaybeAsJson, hjson, Option.getD_none]
+  cases opt.join <;> cases b.isLast <;> simp
+
+/-- a self-overlapping delimiter: `a---b--c` split at `--` is `a`, `-b`, `c`; the bound `1:2`
+    prints `a---b` (bytes: `a` = 97, `-` = 45, `b` = 98, `c` = 99) -/
+example :
+    let line : Bytes := [97, 45, 45, 45, 98, 45, 45, 99]
+    let d : Bytes := [45, 45]
+    let fields := fillWithFieldsLocations [] line d
+    fields = [⟨0, 1⟩, ⟨3, 5⟩, ⟨7, 8⟩] ∧
+    splitFields d line = [[97], [45, 98], [99]] ∧
+    outputBof line fields fields.length { delimiter := d, bounds := ⟨[], .cont⟩ } false
+        (.bound { l := .some 1, r := .some 2 }) = Run.ok [97, 45, 45, 45, 98] := by
+  decide
+
+/-- why `plain_bound_output` asks for `b.l ≠ .some 0`: the (unparsable) bound `0:0` resolves to
+    the empty interval `(0, 0)` and yet the engine prints the first field -/
+example :
+    let line : Bytes := [97, 45, 45, 45, 98, 45, 45, 99]
+    let d : Bytes := [45, 45]
+    let fields := fillWithFieldsLocations [] line d
+    let b : UserBounds := { l := .some 0, r := .some 0 }
+    b.tryIntoRange fields.length = some (0, 0) ∧
+    outputBof line fields fields.length { delimiter := d, bounds := ⟨[], .cont⟩ } false
+        (.bound b) = Run.ok [97] := by
+  decide
 
 end Tuc
